@@ -102,3 +102,13 @@ Theorem C02_set_vring_fd_end_to_end : forall cfg s o code name idx f fl,
   = [call name [VN idx; vfds [f]]].
 Proof. exact set_vring_fd_end_to_end. Qed.
 Print Assumptions C02_set_vring_fd_end_to_end.
+
+(* the frontend half of the vring-descriptor messages, REGENERATED from send_fd_for_vring: refused locally exactly when
+   the index is not below the queue maximum or does not fit bits 0-7; the payload is the index itself (bit 8 clear) *)
+From VV Require Import Gen.GenVrfd.
+Theorem C02_vring_fd_local_check_regenerated : forall q mx, sfv_bad q mx = false <-> (q < mx /\ q <= 255).
+Proof. exact sfv_bad_spec. Qed.
+Print Assumptions C02_vring_fd_local_check_regenerated.
+Theorem C02_vring_fd_payload_regenerated : forall q, sfv_payload q = q.
+Proof. exact sfv_payload_is_index. Qed.
+Print Assumptions C02_vring_fd_payload_regenerated.
